@@ -9,6 +9,7 @@ import json, operator, os, random, sys
 
 import sc3
 sc3.init(os.environ.get('SC3_MODE', 'nrt'))
+import sc3.base.main
 import sc3.base.builtins as bi
 from sc3.base.functions import Function
 from sc3.base.stream import Routine, stream
@@ -177,6 +178,146 @@ def main():
                 check('kwcall_binop', 'keyword_call_binop', src + '(sig %s lo)%s' % (name, ctext), lambda: call(op(sig, lof)), op(sv, lv))
                 check('kwcall_reflected', 'keyword_call_binop', src + '(%d %s lo)%s' % (n, name, ctext), lambda: call(op(n, lof)), op(n, lv))
             check('kwcall_unop', 'keyword_call_unop', src + '(-(sig - lo))%s' % ctext, lambda: call(-(sig - lof)), -(sv - lv))
+        # ---- bug-class review probes -------------------------------------------------------------
+        # (1) falsy values are values: a stream / pattern / function yielding 0, 0.0, False, None, '', []
+        #     is not exhausted and is not replaced by a default
+        vals = [0, None, False, 0.0, '', [], 5]
+        rng.shuffle(vals)
+        check('falsy_stream_items', 'stream_binop_value', 'list(routine_over(%r) == 0)' % (vals,),
+              lambda: list(routine_over(vals) == 0), [v == 0 for v in vals])
+        check('falsy_stream_items_reflected', 'reflected_forms', 'list(0 != routine_over(%r))' % (vals,),
+              lambda: list(0 != routine_over(vals)), [0 != v for v in vals])
+        check('falsy_pattern_items', 'pattern_binop_numbers', 'list(stream(Pseq(%r) != 0))' % (vals,),
+              lambda: list(stream(Pseq(vals) != 0)), [v != 0 for v in vals])
+        check('falsy_pattern_items_embedded', 'embedded_binop', 'list(stream(Pseq([Pseq(%r) == 0])))' % (vals,),
+              lambda: list(stream(Pseq([Pseq(vals) == 0]))), [v == 0 for v in vals])
+        zs = [0, False, 0.0, 3, -0.0]
+        check('falsy_unop_stream', 'lift_unop_hom', 'list(-routine_over(%r))' % (zs,),
+              lambda: [repr(v) for v in -routine_over(zs)], [repr(-v) for v in zs])
+        check('falsy_narop_stream', 'embedded_narop', 'list(routine_over(%r).clip(routine_over([0, 0, 0, 0, 0]), 1))' % (zs,),
+              lambda: [repr(v) for v in routine_over(zs).clip(routine_over([0, 0, 0, 0, 0]), 1)], [repr(bi.clip(v, 0, 1)) for v in zs])
+        for zv in (0, 0.0, False, None):
+            fz = Function(lambda x, zv=zv: zv)
+            check('falsy_function_result', 'lift_binop_hom', '(Function(lambda x: %r) == 0)(1), (0 == f)(1)' % (zv,),
+                  lambda: ((fz == 0)(1), (0 == fz)(1), (fz != None)(1)), (zv == 0, 0 == zv, zv != None))
+        check('falsy_operand', 'operand_binop_hom', '(Operand(0) + 0).value, (0 - Rest(0)).value, (Rest(0) * 5).value',
+              lambda: (repr((Operand(0) + 0).value), repr((0 - Rest(0)).value), repr((Rest(0.0) * 5).value), type(Rest(0) * 5).__name__),
+              ('0', '0', '0.0', 'Rest'))
+        check('falsy_list_items', 'list_binop_wrap_law', 'ChannelList([0, False, 0.0]) + ChannelList([0])',
+              lambda: [repr(v) for v in ChannelList([0, False, 0.0]) + ChannelList([0])], ['0', '0', '0.0'])
+
+        # (2) an operand that raises: the composite raises the same exception, the thread state is restored
+        #     and the next, unrelated evaluation is correct
+        class Boom(BaseException):
+            pass
+
+        def check_raises(law, expr, exc, thunk):
+            def run():
+                try:
+                    thunk()
+                    got = 'no exception'
+                except BaseException as e:
+                    got = type(e).__name__
+                main = sc3.base.main.main
+                return (got, main.current_tt is main.main_tt, list(routine_over([1, 2]) + 1), (f + 1)(x))
+            check(law, 'lift_binop_hom', expr, run, (exc.__name__, True, [2, 3], fx + 1))
+        for exc in (KeyError, Boom):
+            def boom(x, exc=exc):
+                raise exc('boom')
+            ferr = Function(boom)
+
+            def gen_err():
+                yield 1
+                raise exc('boom')
+            check_raises('raising_function_operand', '(f + Function(boom))(x) raises %s' % exc.__name__, exc, lambda: (f + ferr)(x))
+            check_raises('raising_function_operand_reflected', '(2 - Function(boom))(x) raises %s' % exc.__name__, exc, lambda: (2 - ferr)(x))
+            check_raises('raising_function_narop_operand', 'f.clip(Function(boom), 9)(x) raises %s' % exc.__name__, exc,
+                         lambda: f.clip(ferr, 9)(x))
+            check_raises('raising_stream_operand', 'list(routine_over([1,2,3]) + Routine(yield 1; raise %s))' % exc.__name__, exc,
+                         lambda: list(routine_over([1, 2, 3]) + Routine(gen_err)))
+            check_raises('raising_stream_operand_first', 'list(Routine(yield 1; raise %s) * routine_over([1,2,3]))' % exc.__name__, exc,
+                         lambda: list(Routine(gen_err) * routine_over([1, 2, 3])))
+            check_raises('raising_stream_narop_operand', 'list(routine_over([1,2,3]).clip(0, Routine(yield 1; raise)))', exc,
+                         lambda: list(routine_over([1, 2, 3]).clip(0, Routine(gen_err))))
+            check_raises('raising_pattern_embedded', 'list(stream(Pseq([Pseq([1,2,3]) + Routine(yield 1; raise)])))', exc,
+                         lambda: list(stream(Pseq([Pseq([1, 2, 3]) + Routine(gen_err)]))))
+
+        # (4) no cached operand values, no consumed or mutated operands
+        comp = getattr(f, n3)(g - 2, g + 2)       # tight bounds: a stale bound changes the result
+        xs3 = (x, x + 3, x - 5, x)
+        check('function_evaluated_twice', 'lift_narop_hom', 'c = %s.%s(%s - 2, %s + 2); [c(v) for v in %s]' % (fs, n3, gs, gs, list(xs3)),
+              lambda: [comp(v) for v in xs3],
+              [op3(k1 * v + c1, k2 * v + c2 - 2, k2 * v + c2 + 2) for v in xs3])
+        compb = (f - g) * g
+        check('function_binop_evaluated_twice', 'lift_binop_hom', 'c = (f - g) * g; [c(v) for v in %s]' % (list(xs3),),
+              lambda: [compb(v) for v in xs3], [((k1 * v + c1) - (k2 * v + c2)) * (k2 * v + c2) for v in xs3])
+        pc = Pseq([getattr(Pseq(pa), n3)(Pseq(pl), Pseq(ph))])
+        wantp = [op3(a, l, h) for a, l, h in zip(pa, pl, ph)]
+        check('pattern_streamed_twice', 'embed_eq_stream', 'p = Pseq([Pseq(%s).%s(Pseq(%s), Pseq(%s))]); list(stream(p)) twice' % (pa, n3, pl, ph),
+              lambda: (list(stream(pc)), list(stream(pc))), (wantp, wantp))
+        check('same_function_both_operands', 'lift_binop_hom', '(f - f)(x), f.clip(f, f)(x), (f * f)(x)',
+              lambda: ((f - f)(x), f.clip(f, f)(x), (f * f)(x)), (0, fx, fx * fx))
+        # one Routine used as both operands: it is advanced once per operand, the LEFT operand first
+        rr = [rng.randint(-9, 9) for _ in range(rng.randint(0, 7))]
+
+        def shared_sub():
+            r = routine_over(rr)
+            return list(r - r)
+        check('shared_routine_left_first', 'stream_binop_ends_with_shortest', 'r = routine_over(%s); list(r - r)' % rr,
+              shared_sub, [rr[i] - rr[i + 1] for i in range(0, len(rr) - 1, 2)])
+
+        def shared_nar():
+            r = routine_over(rr)
+            return list(r.clip(r, r))
+        check('shared_routine_narop_order', 'embedded_narop', 'r = routine_over(%s); list(r.clip(r, r))' % rr,
+              shared_nar, [bi.clip(rr[i], rr[i + 1], rr[i + 2]) for i in range(0, len(rr) - 2, 3)])
+
+        def args_kept():
+            c = f.clip(g, 7)
+            before = [id(a) for a in c.args]
+            c(x), c(x)
+            s = routine_over([1, 2, 3]).clip(Pseq([0, 0, 0]), 2)
+            sb = [id(a) for a in s.args]
+            list(s)
+            return (before == [id(a) for a in c.args], len(c.args), sb == [id(a) for a in s.args], len(s.args))
+        check('narop_args_not_mutated', 'lift_narop_hom', 'c = f.clip(g, 7); c(x); c.args unchanged; NaropStream.args unchanged',
+              args_kept, (True, 2, True, 2))
+
+        def lists_kept():
+            inner = [2, 3]
+            a, b = [1, inner, (4,)], (10, [20, 30])
+            r1 = ChannelList(a) * b
+            r2 = bi.squared(ChannelList(a))
+            return (a, inner, b, list(r1), list(r2))
+        check('caller_lists_not_mutated', 'list_binop_wrap_law', 'a=[1,[2,3],(4,)]; b=(10,[20,30]); ChannelList(a)*b; bi.squared(ChannelList(a))',
+              lists_kept, ([1, [2, 3], (4,)], [2, 3], (10, [20, 30]), [10, [40, 90], (40,)], [1, [4, 9], (16,)]))
+
+        # (6)/(7) the four forms agree on non-commutative operators, operand order kept
+        for nm, mth, bif, pyop in (('sub', None, None, operator.sub), ('mod', None, bi.mod, operator.mod),
+                                   ('ring3', 'ring3', bi.ring3, None), ('excess', 'excess', bi.excess, None),
+                                   ('difsqr', 'difsqr', bi.difsqr, None), ('thresh', 'thresh', bi.thresh, None)):
+            kern = bif or pyop
+            if nm == 'mod' and (gx == 0 or fx == 0 or n == 0):
+                continue
+            forms = {}
+            if pyop:
+                forms['operator'] = lambda: (pyop(f, g)(x), pyop(n, g)(x), pyop(f, n)(x))
+            if mth:
+                forms['method'] = lambda: (getattr(f, mth)(g)(x), None, getattr(f, mth)(n)(x))
+            if bif:
+                forms['builtin'] = lambda: (bif(f, g)(x), bif(n, g)(x), bif(f, n)(x))
+            for form, th in forms.items():
+                want = (kern(fx, gx), None if form == 'method' else kern(n, gx), kern(fx, n))
+                check('forms_agree_%s' % form, 'reflected_forms', '%s as %s on (f, g), (%d, g), (f, %d) at x=%d' % (nm, form, n, n, x), th, want)
+        check('reflected_pow', 'reflected_forms', '(%d ** f)(x), (f ** 2)(x), (2 >= f)(x), (f >= 2)(x)' % n,
+              lambda: ((n ** f)(x), (f ** 2)(x), (2 >= f)(x), (f >= 2)(x)), (n ** fx, fx ** 2, 2 >= fx, fx >= 2))
+        check('narop_argument_order', 'lift_narop_hom', 'f.wrap(lo, hi) vs f.wrap(hi, lo); f.fold; blend(a, b, frac)',
+              lambda: (f.wrap(lo, hi)(x), f.fold(lo, hi)(x), f.blend(g, 0.25)(x), g.blend(f, 0.25)(x)),
+              (bi.wrap(fx, lo, hi), bi.fold(fx, lo, hi), bi.blend(fx, gx, 0.25), bi.blend(gx, fx, 0.25)))
+        # default second argument supplied by the wrapper / method / dunder
+        check('default_second_argument', 'lift_binop_hom', 'bi.round(f)(x), f.round()(x), round(f)(x), f.trunc()(x), f.roundup()(x), f.max()(x)',
+              lambda: (bi.round(f)(x), f.round()(x), round(f)(x), bi.trunc(f)(x), f.trunc()(x), f.roundup()(x), f.max()(x)),
+              (bi.round(fx, 1), bi.round(fx, 1), bi.round(fx, 1), bi.trunc(fx, 1), bi.trunc(fx, 1), bi.roundup(fx, 1), bi.max(fx, 0)))
     # keep one (the first) example per law
     seen, out = set(), []
     for b in bad:
